@@ -338,6 +338,7 @@ def execute(scenario, tape):
                       getattr(conn, 'new_networking_thread', None)
                       is not None)
             rec.live_net_at_inv = live_net()
+            rec.pending_inv = rec.pending
             rec.tid = sim.current.tid
             st['recs'].append(rec)
             rec.r = w.api(op, fn, *a, **k)
@@ -1021,6 +1022,27 @@ def check(scenario, w, st, res):
             V.append(('C16/refused-in-status-result-handler',
                       {'status_call_by': str(par.by)}))
             break
+    # ---- O9: a connect() made from inside an exception handler - the
+    # session has ended with that error - is not refused as 'existing
+    # connection' when the failing thread is the only networking thread
+    # alive, no hand-over is pending and nobody else is calling
+    for r in calls:
+        if r.op != 'connect' or r.by != 'handler' or not r.net_thread:
+            continue
+        if getattr(r, 'pending_inv', True) or r.live_net_at_inv != 1:
+            continue
+        conc = [o for o in mutating if o is not r and
+                o.r.inv < (r.r.ret or 10**12) and
+                (o.r.ret or 10**12) > r.r.inv]
+        if conc:
+            continue
+        ob()
+        res.probes['handler-reconnect-admission-checked'] = \
+            res.probes.get('handler-reconnect-admission-checked', 0) + 1
+        if not r.r.ok and type(r.r.exc).__name__ == 'InvalidState':
+            V.append(('C16/refused-in-exception-handler',
+                      {'live_net': r.live_net_at_inv,
+                       'client_errors': st['errs'][-2:]}))
     # ---- O8: a connect() made from inside a listener / exception handler
     # and answered by a healthy server yields a usable session
     final_from = st.get('final_from', 10**12)
